@@ -10,6 +10,38 @@
   The Layer A theorem `C11_put_then_delete` (Properties/C11.lean) assumes the two commands ADJACENT at the head of the
   queue.  Here: histories `RunH b0 h b` of Layer B from a reachable start state with the clients idle and the cache
   running; the scenario is `PD.Scen` (PutDeleteLemmas.lean), spelled out in the hypotheses of the theorems below.
+  The machinery (the invariant `PD.PDE` / `PD.PDL` of the pair of commands, `PD.main_inv`) is in PutDeleteLemmas.lean.
+
+  Theorems
+    `C11_layerB_put_then_delete_partial`   the strongest TRUE form: key absent, id not charged, `h₁` answered before `h₂`,
+                                           and the answer of the delete EXACTLY as the model gives it
+    `C11_layerB_put_then_delete`           the literal clause, under the additional named hypothesis "no eviction / sweep
+                                           of `k` in the history"
+    `C11_layerB_delete_mark_hits_nothing_or_the_put`
+                                           the `delete.mark` before / after the put's `store.put`: readable for a while /
+                                           hidden at once; after the `Delete`'s `store.remove`: never
+    `C11_layerB_queue_order_is_issue_order_per_client`
+                                           one client's commands are enqueued, executed and answered in the order of its
+                                           calls (any two calls, any run from a reachable state, no side condition)
+  FINDING
+    `C11_layerB_put_then_delete_counterexample`   the clause "the delete is not answered 'key does not exist' when the
+        put was accepted" is FALSE of the model: another client's put, queued BETWEEN the two commands, evicts the key
+        (so does the sweeper for a put with a time-to-live whose deadline passes in between); the delete is answered
+        `KeyDoesNotExist` although the put was `Accepted`.  The key is absent all the same.
+  Concrete runs (three clients): `…_witness` (non-vacuity: other clients' commands in between, reads of `k`, a sweeper
+    tick, a clock move), `…_needs_no_other_writer`, `…_delete_mark_after_put_witness`, `…_exists_witness`,
+    `…_tooHeavy_witness`.
+
+  Hypotheses, and why (all NAMED in the statements):
+    * `hAlive : b.w ≠ .dead` — the worker is alive at the END of the history (known findings D8 / D9: a put whose
+      deadline is not representable, an `UpdateWeight` overflow, kill the worker; queued commands are then dropped and
+      stay pending for ever).  It is used only to rule the dying action out of the induction; a history in which the
+      worker dies AFTER everything is covered through its prefix before the death (a prefix of a run is a run).
+    * `hNoShutdown` — nobody issues `shutdown()`; with `hrunning : b0.g.shutting = false`.  That no `Shutdown` command
+      waits in `b0` and that its worker is not draining FOLLOWS from `Reach` and `hrunning` (`PD.running_no_shutdown`).
+    * `hOthers`, `hAfter` — no other client, and after `r₂` not client `i` either, issues a put / upsert / delete of `k`.
+    * In `C11_layerB_delete_mark_hits_nothing_or_the_put`: the index `m₂` of the `delete.mark` action and the index `p`
+      of the put's `store.put` (`r₁ < p`) are GIVEN (hypotheses `hmark`, `PutPoint h p k c₁.id`), not constructed.
 -/
 import CachedProofs.LayerB.PutDeleteLemmas
 
@@ -115,6 +147,166 @@ theorem C11_layerB_put_then_delete_partial {cfg : Cfg} {now : Nat} {seeds : List
         · cases e
         · exact Or.inr ⟨ho, hres⟩
 
+/-- **C11, the literal clause — under the one additional NAMED hypothesis it needs.**  Same history and side conditions
+    as `C11_layerB_put_then_delete_partial`, and
+    * `hNoEviction`  no eviction and no sweep removes an entry of `k` anywhere in the history (`isForeignRemove`: the
+                     worker's `store.remove` inside the `create_space` of another put, the sweeper's `store.remove`).
+    Then in every state after `r₂` in which `h₂` is answered: the key is absent, the put's id is not charged, `h₁` is
+    answered — and if the put was `Accepted` the delete is `Accepted`: NOT answered `KeyDoesNotExist`.
+    Without `hNoEviction` the last clause is false: `C11_layerB_put_then_delete_counterexample`. -/
+theorem C11_layerB_put_then_delete {cfg : Cfg} {now : Nat} {seeds : List Nat} {clients : Nat}
+    {b0 b : BState} {h : List (BState × Act)} (hr0 : Reach cfg now seeds clients b0)
+    (hidle : ∀ pc ∈ b0.cl, pc = .idle) (hrunning : b0.g.shutting = false) (hrun : RunH b0 h b)
+    (hAlive : b.w ≠ .dead) (hNoShutdown : ∀ j n, ¬ Issued h j .shutdown n)
+    {i k v : Nat} {w : Int} {ttl : Option Nat} {n₁ r₁ n₂ r₂ h₁ h₂ : Nat}
+    (hOthers : ∀ j q r, j ≠ i → Issued h j r q → reqOnK k r = false)
+    (hNoEviction : ∀ n x, At h n x → ¬ isForeignRemove k x)
+    (hput : Issued h i (.putW k v w ttl) n₁) (hret₁ : Returned h b i r₁ (.ack h₁ .pending)) (hlt₁ : n₁ < r₁)
+    (hsame₁ : ∀ q r, n₁ < q → q < r₁ → ¬ Issued h i r q)
+    (hdel : Issued h i (.delete k) n₂) (hlt₁₂ : r₁ < n₂) (hbetween : ∀ q r, r₁ < q → q < n₂ → ¬ Issued h i r q)
+    (hret₂ : Returned h b i r₂ (.ack h₂ .pending)) (hlt₂ : n₂ < r₂)
+    (hsame₂ : ∀ q r, n₂ < q → q < r₂ → ¬ Issued h i r q)
+    (hAfter : ∀ q r, r₂ < q → Issued h i r q → reqOnK k r = false) :
+    ∃ c₁ : PutCmd, IsCmd h i k v w ttl r₁ h₁ c₁ ∧
+      ∀ m s, r₂ < m → StateAt h b m s → Answered s h₂ →
+        s.g.store.get? k = none ∧ s.g.adm.kw.get? c₁.id = none ∧ Answered s h₁ ∧
+        (s.g.acks[h₁]? = some .accepted → s.g.acks[h₂]? = some .accepted) := by
+  obtain ⟨c₁, hc₁, hall⟩ := C11_layerB_put_then_delete_partial hr0 hidle hrunning hrun hAlive hNoShutdown hOthers
+    hput hret₁ hlt₁ hsame₁ hdel hlt₁₂ hbetween hret₂ hlt₂ hsame₂ hAfter
+  refine ⟨c₁, hc₁, ?_⟩
+  intro m s hm hst hans
+  obtain ⟨hnone, hkw, st₁, st₂, lo, d, hs₁, hs₂, hne, _, _, _, _, hcase⟩ := hall m s hm hst hans
+  refine ⟨hnone, hkw, ⟨st₁, hs₁, hne⟩, ?_⟩
+  intro hacc
+  rw [hs₁] at hacc
+  cases hacc
+  rcases hcase with ⟨_, h2 | ⟨_, n, x, _, _, hat, hfr⟩⟩ | ⟨h1 | h1, _⟩
+  · rw [hs₂, h2]
+  · exact absurd hfr (hNoEviction n x hat)
+  · cases h1
+  · cases h1
+
+/-! ## the `delete.mark` of the un-awaited delete: before or after the put's `store.put` -/
+
+/-- **C11 / C04: the `delete.mark` of the un-awaited delete hits nothing, or the put — and the `Delete` command removes
+    the entry either way.**  Same history, same NAMED side conditions as `C11_layerB_put_then_delete_partial`.
+    `m₂` is the `delete.mark` action of the delete call (`hmark`: the `m₂`-th action is an action of client `i`, which
+    stands at `delete.mark(k)`; it lies inside the call).  `c₁` is the put's command.  Then
+
+    * (AFTER the `Delete`'s `store.remove`: never)  in every state after `r₂` in which the `Delete(k)` command neither
+      waits in the queue nor is about to run its `store.remove` — i.e. from its `store.remove` on — `k` is ABSENT:
+      every read finds nothing;
+    and for the put's `store.put`, the action `p` (`PutPoint h p k c₁.id`, after the call returned: `r₁ < p`):
+    * right after it the store holds the put's entry, value `v`, NOT soft-deleted;
+    * (mark BEFORE the `store.put`, `m₂ < p`: it marked nothing of the put)  in every later state the entry of `k`, as
+      long as there is one, is the put's — value `v`, key id `c₁.id`, NOT hidden: a read returns `v` (unless the entry
+      has expired) although `delete(k)` has been called and may have RETURNED (`Spec.delete_returns_readable`) — until
+      the `Delete` command, queued behind the put's, removes it (first clause);
+    * (mark AFTER the `store.put`, `p < m₂`: it hits the put)  in every state after the mark the entry of `k`, as long
+      as there is one, is soft-deleted: hidden AT ONCE, and for good. -/
+theorem C11_layerB_delete_mark_hits_nothing_or_the_put {cfg : Cfg} {now : Nat} {seeds : List Nat} {clients : Nat}
+    {b0 b : BState} {h : List (BState × Act)} (hr0 : Reach cfg now seeds clients b0)
+    (hidle : ∀ pc ∈ b0.cl, pc = .idle) (hrunning : b0.g.shutting = false) (hrun : RunH b0 h b)
+    (hAlive : b.w ≠ .dead) (hNoShutdown : ∀ j n, ¬ Issued h j .shutdown n)
+    {i k v : Nat} {w : Int} {ttl : Option Nat} {n₁ r₁ n₂ r₂ h₁ h₂ : Nat}
+    (hOthers : ∀ j q r, j ≠ i → Issued h j r q → reqOnK k r = false)
+    (hput : Issued h i (.putW k v w ttl) n₁) (hret₁ : Returned h b i r₁ (.ack h₁ .pending)) (hlt₁ : n₁ < r₁)
+    (hsame₁ : ∀ q r, n₁ < q → q < r₁ → ¬ Issued h i r q)
+    (hdel : Issued h i (.delete k) n₂) (hlt₁₂ : r₁ < n₂) (hbetween : ∀ q r, r₁ < q → q < n₂ → ¬ Issued h i r q)
+    (hret₂ : Returned h b i r₂ (.ack h₂ .pending)) (hlt₂ : n₂ < r₂)
+    (hsame₂ : ∀ q r, n₂ < q → q < r₂ → ¬ Issued h i r q)
+    (hAfter : ∀ q r, r₂ < q → Issued h i r q → reqOnK k r = false)
+    {m₂ : Nat} {sm : BState} (hmark : At h m₂ (sm, .client i)) (hmpc : sm.cl[i]? = some (.delMark k))
+    (hm₂ : n₂ < m₂ ∧ m₂ < r₂) :
+    ∃ c₁ : PutCmd, IsCmd h i k v w ttl r₁ h₁ c₁ ∧
+      (∀ m s, r₂ < m → StateAt h b m s → h₂ ∉ qHandles s.g.queue → s.w ≠ .delStore k (some h₂) →
+        s.g.store.get? k = none) ∧
+      ∀ p, r₁ < p → PutPoint h p k c₁.id →
+        (∃ s' exp, StateAt h b (p + 1) s' ∧
+          s'.g.store.get? k = some { value := v, id := c₁.id, expiry := exp, soft := false }) ∧
+        (m₂ < p → ∀ m s, p < m → StateAt h b m s →
+          ∀ e, s.g.store.get? k = some e → e.value = v ∧ e.id = c₁.id ∧ e.soft = false) ∧
+        (p < m₂ → ∀ m s, m₂ < m → StateAt h b m s → ∀ e, s.g.store.get? k = some e → e.soft = true) := by
+  obtain ⟨hq0, hw0⟩ := running_no_shutdown hr0 hrunning
+  have sc : Scen h b i k v w ttl n₁ r₁ n₂ r₂ h₁ h₂ :=
+    ⟨hNoShutdown, hOthers, hput, hret₁, hlt₁, hsame₁, hdel, hlt₁₂, hbetween, hret₂, hlt₂, hsame₂, hAfter⟩
+  have hinv := main_inv hr0 hidle hrunning hq0 hw0 hrun hAlive sc
+  obtain ⟨s0, s0', hx0, hst0', _, _⟩ := hret₁
+  obtain ⟨H0, _, hlen0, _, _, hP2, _, _⟩ := hinv (r₁ + 1) s0' hst0'
+  obtain ⟨_, c₁, hc₁, _⟩ := hP2 (by omega) (by omega)
+  obtain ⟨hck, hcv, _, _, hch, _⟩ := hc₁
+  have hc₁ : IsCmd h i k v w ttl r₁ h₁ c₁ := ⟨hck, hcv, by assumption, by assumption, hch, by assumption⟩
+  have good := fun {m s} (hm : r₁ < m) (hst : StateAt h b m s) => good_at hrun sc hinv hc₁ hm hst
+  obtain ⟨sR, _, hxR, _⟩ := hret₂
+  -- what client `i` may issue after the mark
+  have issOk : ∀ q s r, m₂ < q → At h q (s, .issue i r) → reqOnK k r = false := by
+    intro q s r hq hx
+    rcases Nat.lt_trichotomy q r₂ with hlt | heq | hgt
+    · exact absurd ⟨s, hx⟩ (hsame₂ q r (by omega) hlt)
+    · rw [heq] at hx; have := hx.inj hxR; cases this
+    · exact hAfter q r hgt ⟨s, hx⟩
+  -- right after the mark: client `i` stands at the `cmd.send` of the `Delete`, and whatever entry `k` has is hidden
+  obtain ⟨sm', om, om', _, hstepm, hstm', _⟩ := runH_at hrun hmark
+  have hltm : i < sm.cl.length := lt_of_getElem?_some hmpc
+  have hmark' : PastMark i k sm' ∧ SoftK k sm' := by
+    obtain ⟨_, _, ⟨hn, rfl⟩ | ⟨e, he, rfl⟩⟩ := ent_clientAct_delMark hmpc (by simpa [stepB] using hstepm)
+    · refine ⟨fun pc hpc => Or.inl ?_, fun e he => ?_⟩
+      · simp only [setClient, List.getElem?_set_self hltm, Option.some.injEq] at hpc; exact hpc.symm
+      · simp only [setClient] at he; rw [hn] at he; cases he
+    · refine ⟨fun pc hpc => Or.inl ?_, fun e' he' => ?_⟩
+      · simp only [setClient, List.getElem?_set_self hltm, Option.some.injEq] at hpc; exact hpc.symm
+      · simp only [setClient, AMap.get?_set_same, Option.some.injEq] at he'; rw [← he']
+  have pastMark : ∀ d s, StateAt h b (m₂ + 1 + d) s → PastMark i k s := by
+    refine run_induct' hr0 hrun (PastMark i k) ?_ hstm' hmark'.1
+    intro d s s' a o o' hx _ hq hs
+    have hst : StateAt h b (m₂ + 1 + d) s := Or.inr ⟨a, hx⟩
+    exact pastMark_step (good (by omega) hst).1.flag hs (fun r e => issOk _ s r (by omega) (e ▸ hx)) hq
+  refine ⟨c₁, hc₁, ?_, ?_⟩
+  · intro m s hm hst hnq hnw
+    obtain ⟨_, _, h4⟩ := good (by omega) hst
+    obtain ⟨_, H, hpd⟩ := h4 hm
+    rcases hpd with hpde | hpdl
+    · rcases pde_waits hpde with hq | hw'
+      · exact absurd hq hnq
+      · exact absurd hw' hnw
+    · exact pdl_absent hpdl
+  · intro p hp ⟨x, v', hx, hisput⟩
+    have hstp : StateAt h b p x.1 := Or.inr ⟨x.2, hx⟩
+    obtain ⟨sp', exp, hstp', hpp', hent⟩ := after_putpoint hr0 hrun hck hcv hch hx hisput (good hp hstp).2.1
+    -- from the `store.put` on: the put's `store.put` has run
+    have pp : ∀ d s, StateAt h b (p + 1 + d) s → PP h₁ c₁ s :=
+      run_induct hr0 hrun (PP h₁ c₁) (fun s s' a o o' hr hq hs => pp_step hch (hinv_reach hr) hq hs) hstp' hpp'
+    refine ⟨⟨sp', exp, hstp', hent⟩, ?_, ?_⟩
+    · -- the mark came first: the entry stays the put's, not hidden
+      intro hmp
+      have key : ∀ d s, StateAt h b (p + 1 + d) s → PP h₁ c₁ s ∧ ExactK k v c₁.id s ∧ PastMark i k s := by
+        refine run_induct' hr0 hrun (fun s => PP h₁ c₁ s ∧ ExactK k v c₁.id s ∧ PastMark i k s) ?_ hstp' ⟨hpp', ?_, ?_⟩
+        · intro d s s' a o o' hx' _ ⟨hq1, hq2, hq3⟩ hs
+          have hst : StateAt h b (p + 1 + d) s := Or.inr ⟨a, hx'⟩
+          have hrs := stateAt_reach hr0 hrun hst
+          obtain ⟨he, hg, _⟩ := good (by omega) hst
+          have hnp := good_nomoreput hch (hinv_reach hrs) hq1 hg
+          obtain ⟨hnm, hnu⟩ := pastMark_no_mark he hq3
+          exact ⟨pp_step hch (hinv_reach hrs) hq1 hs, exact_step hs hnp hnm hnu hq2,
+            pastMark_step he.flag hs (fun r e => issOk _ s r (by omega) (e ▸ hx')) hq3⟩
+        · intro e he; rw [hent] at he; cases he; exact ⟨rfl, rfl, rfl⟩
+        · exact pastMark (p - m₂) sp' (by rw [show m₂ + 1 + (p - m₂) = p + 1 by omega]; exact hstp')
+      intro m s hm hst
+      exact (key (m - (p + 1)) s (by rw [show p + 1 + (m - (p + 1)) = m by omega]; exact hst)).2.1
+    · -- the `store.put` came first: the mark hides the entry, for good
+      intro hpm
+      have key : ∀ d s, StateAt h b (m₂ + 1 + d) s → PP h₁ c₁ s ∧ SoftK k s := by
+        refine run_induct' hr0 hrun (fun s => PP h₁ c₁ s ∧ SoftK k s) ?_ hstm' ⟨?_, hmark'.2⟩
+        · intro d s s' a o o' hx' _ ⟨hq1, hq2⟩ hs
+          have hst : StateAt h b (m₂ + 1 + d) s := Or.inr ⟨a, hx'⟩
+          have hrs := stateAt_reach hr0 hrun hst
+          obtain ⟨_, hg, _⟩ := good (by omega) hst
+          have hnp := good_nomoreput hch (hinv_reach hrs) hq1 hg
+          exact ⟨pp_step hch (hinv_reach hrs) hq1 hs, soft_step hs hnp hq2⟩
+        · exact pp (m₂ - p) sm' (by rw [show p + 1 + (m₂ - p) = m₂ + 1 by omega]; exact hstm')
+      intro m s hm hst
+      exact (key (m - (m₂ + 1)) s (by rw [show m₂ + 1 + (m - (m₂ + 1)) = m by omega]; exact hst)).2
+
 /-! ## C11: one client's commands are enqueued, executed and answered in the order of its calls -/
 
 /-- **C11 (submission order, per client).**  ANY run from a reachable state.  Client `i` makes the call `reqA` (issued at
@@ -140,6 +332,7 @@ theorem C11_layerB_queue_order_is_issue_order_per_client {cfg : Cfg} {now : Nat}
         (qHandles s.g.queue).Pairwise (· < ·) ∧
         (rB < m → (s.w.held = some hB ∨ Answered s hB) → Answered s hA) := by
   have _ := hissA
+  have _ := hltA
   -- a client's second call is issued only after its first returned
   have h1 : rA < nB := by
     rcases Nat.lt_trichotomy nB rA with hlt | heq | hgt
@@ -309,6 +502,43 @@ theorem C11_layerB_put_then_delete_counterexample :
   · exact ⟨_, 100, rfl, rfl, _, none, rfl, rfl, rfl, rfl, rfl⟩
   · exact ⟨26, _, by decide, by decide, rfl, Or.inl ⟨rfl, _, _, _, _, _, _, rfl, rfl, rfl⟩⟩
 
+namespace PD
+
+/-- **The run of the finding, sweeper variant** (one client suffices).  Client 0: `put(1)` with a time-to-live of 5 ns,
+    `delete(1)` un-awaited (handles 0, 1).  The worker applies the put (`store.put` = action 14, `Accepted` at 15); the
+    clock passes the deadline (16); a sweeper tick (17..22) evicts key 1 (its `store.remove` = action 21); the
+    `Delete(1)` command (`store.remove` = action 24) finds nothing: `KeyDoesNotExist`. -/
+def cexSweep : List (Act × Oracle) :=
+  call 0 (.putW 1 100 3 (some 5)) 4 ++ call 0 (.delete 1) 3 ++ workerN 7 ++ [(.advance 10, noO)] ++
+  [(.sweeper none, noO), (.sweeper (some 1), noO), (.sweeper none, noO), (.sweeper none, noO), (.sweeper none, noO),
+   (.sweeper none, noO)] ++ workerN 2
+
+end PD
+
+open PD in
+/-- **FINDING, sweeper variant**: the same with no other client at all — the put carries a time-to-live, the deadline
+    passes before the worker reaches the `Delete`, the sweeper removes the entry (action 21), the delete is answered
+    `KeyDoesNotExist` although the put was `Accepted`. -/
+theorem C11_layerB_put_then_delete_counterexample_sweeper :
+    RunH pdInit (pdHist cexSweep) (pdFinal cexSweep) ∧ (pdFinal cexSweep).w ≠ .dead ∧
+    (∀ j n, ¬ Issued (pdHist cexSweep) j .shutdown n) ∧
+    (∀ j q r, j ≠ 0 → Issued (pdHist cexSweep) j r q → reqOnK 1 r = false) ∧
+    Issued (pdHist cexSweep) 0 (.putW 1 100 3 (some 5)) 0 ∧
+    Returned (pdHist cexSweep) (pdFinal cexSweep) 0 4 (.ack 0 .pending) ∧
+    (∀ q r, 0 < q → q < 4 → ¬ Issued (pdHist cexSweep) 0 r q) ∧
+    Issued (pdHist cexSweep) 0 (.delete 1) 5 ∧ (∀ q r, 4 < q → q < 5 → ¬ Issued (pdHist cexSweep) 0 r q) ∧
+    Returned (pdHist cexSweep) (pdFinal cexSweep) 0 8 (.ack 1 .pending) ∧
+    (∀ q r, 5 < q → q < 8 → ¬ Issued (pdHist cexSweep) 0 r q) ∧
+    (∀ q r, 8 < q → Issued (pdHist cexSweep) 0 r q → reqOnK 1 r = false) ∧
+    (pdFinal cexSweep).g.acks = [.accepted, .rejected .keyDoesNotExist] ∧
+    PutPoint (pdHist cexSweep) 14 1 1 ∧ DelAt (pdHist cexSweep) 24 1 1 ∧ FRBetween (pdHist cexSweep) 1 14 24 := by
+  refine ⟨pdRun (by decide), alive_check (by decide), noShutdown_check (by decide), others_check (by decide),
+    ⟨_, rfl⟩, ⟨_, _, rfl, Or.inr ⟨_, rfl⟩, rfl, rfl⟩, noIssue_check (by decide), ⟨_, rfl⟩, noIssue_check (by decide),
+    ⟨_, _, rfl, Or.inr ⟨_, rfl⟩, rfl, rfl⟩, noIssue_check (by decide), after_check (by decide), by decide, ?_,
+    ⟨_, rfl, rfl⟩, ?_⟩
+  · exact ⟨_, 100, rfl, rfl, _, some 5, rfl, rfl, rfl, rfl, rfl⟩
+  · exact ⟨21, _, by decide, by decide, rfl, Or.inr ⟨_, _, _, _, _, _, _, rfl, rfl, rfl, rfl, rfl⟩⟩
+
 /-- … and what `C11_layerB_put_then_delete_partial` says about that run: the key is absent, the id not charged, the put
     answered first — and the `KeyDoesNotExist` comes with the eviction in the history. -/
 example : ∃ c₁ : PutCmd, IsCmd (PD.pdHist PD.cex) 0 1 100 3 none 4 0 c₁ ∧
@@ -427,6 +657,156 @@ theorem C11_layerB_put_then_delete_needs_no_other_writer :
     ⟨_, _, rfl, Or.inr ⟨_, rfl⟩, rfl, rfl⟩, noIssue_check (by decide), ⟨_, rfl⟩, noIssue_check (by decide),
     ⟨_, _, rfl, Or.inr ⟨_, rfl⟩, rfl, rfl⟩, noIssue_check (by decide), after_check (by decide), ⟨_, rfl⟩,
     ⟨.accepted, by decide, by decide⟩, by decide⟩
+
+/-! ### the two orders of `delete.mark` and `store.put`; the order of one client's commands -/
+
+/-- `C11_layerB_delete_mark_hits_nothing_or_the_put` on the run `nv`: the `delete.mark` (action 15) comes BEFORE the
+    put's `store.put` (action 27) — every hypothesis holds, and the conclusion for `p = 27`. -/
+example : ∃ c₁ : PutCmd, IsCmd (PD.pdHist PD.nv) 0 1 100 3 none 4 0 c₁ ∧
+    (∀ m s, 21 < m → StateAt (PD.pdHist PD.nv) (PD.pdFinal PD.nv) m s → 3 ∉ qHandles s.g.queue →
+      s.w ≠ .delStore 1 (some 3) → s.g.store.get? 1 = none) ∧
+    ∀ p, 4 < p → PutPoint (PD.pdHist PD.nv) p 1 c₁.id →
+      (∃ s' exp, StateAt (PD.pdHist PD.nv) (PD.pdFinal PD.nv) (p + 1) s' ∧
+        s'.g.store.get? 1 = some { value := 100, id := c₁.id, expiry := exp, soft := false }) ∧
+      (15 < p → ∀ m s, p < m → StateAt (PD.pdHist PD.nv) (PD.pdFinal PD.nv) m s →
+        ∀ e, s.g.store.get? 1 = some e → e.value = 100 ∧ e.id = c₁.id ∧ e.soft = false) ∧
+      (p < 15 → ∀ m s, 15 < m → StateAt (PD.pdHist PD.nv) (PD.pdFinal PD.nv) m s →
+        ∀ e, s.g.store.get? 1 = some e → e.soft = true) := by
+  obtain ⟨a1, a2, a3, a4, a5, a6, a7, a8, a9, a10, a11, a12, a13, a14, a15, _⟩ := C11_layerB_put_then_delete_witness
+  exact C11_layerB_delete_mark_hits_nothing_or_the_put a2 a3 a4 a1 a5 a6 a7 a8 a9 (by decide) a10 a11 (by decide) a12
+    a13 (by decide) a14 a15 (m₂ := 15) (sm := _) (show At (PD.pdHist PD.nv) 15 (_, .client 0) from rfl) rfl
+    ⟨by decide, by decide⟩
+
+namespace PD
+
+/-- the OTHER order: the worker applies `put(1)` (`store.put` = action 10) BEFORE client 0 calls `delete(1)`: the
+    `delete.mark` (action 13) hits the put's entry; client 1's read (14..16) finds nothing although the entry is still in
+    the store; the `Delete(1)` command (sent at 17, handle 1) removes it (`store.remove` = action 19). -/
+def hid : List (Act × Oracle) :=
+  call 0 (.putW 1 100 3 none) 4 ++ workerN 6 ++
+  [(.issue 0 (.delete 1), noO), (.client 0, noO), (.client 0, noO)] ++
+  call 1 (.get 1) 2 ++ [(.client 0, noO)] ++ workerN 4 ++ call 2 (.get 1) 2
+
+end PD
+
+open PD in
+/-- **Non-vacuity, the other order** (`store.put` 10 < `delete.mark` 13): every hypothesis of
+    `C11_layerB_delete_mark_hits_nothing_or_the_put` holds in the run `hid`; after the mark the entry is in the store,
+    soft-deleted, and a read returns nothing. -/
+theorem C11_layerB_delete_mark_after_put_witness :
+    RunH pdInit (pdHist hid) (pdFinal hid) ∧ Reach cfgEx 0 [1, 2, 3, 4] 3 pdInit ∧ (∀ pc ∈ pdInit.cl, pc = .idle) ∧
+    pdInit.g.shutting = false ∧ (pdFinal hid).w ≠ .dead ∧ (∀ j n, ¬ Issued (pdHist hid) j .shutdown n) ∧
+    (∀ j q r, j ≠ 0 → Issued (pdHist hid) j r q → reqOnK 1 r = false) ∧
+    Issued (pdHist hid) 0 (.putW 1 100 3 none) 0 ∧ Returned (pdHist hid) (pdFinal hid) 0 4 (.ack 0 .pending) ∧
+    (∀ q r, 0 < q → q < 4 → ¬ Issued (pdHist hid) 0 r q) ∧
+    Issued (pdHist hid) 0 (.delete 1) 11 ∧ (∀ q r, 4 < q → q < 11 → ¬ Issued (pdHist hid) 0 r q) ∧
+    Returned (pdHist hid) (pdFinal hid) 0 17 (.ack 1 .pending) ∧
+    (∀ q r, 11 < q → q < 17 → ¬ Issued (pdHist hid) 0 r q) ∧
+    (∀ q r, 17 < q → Issued (pdHist hid) 0 r q → reqOnK 1 r = false) ∧
+    PutPoint (pdHist hid) 10 1 1 ∧ MarkPoint (pdHist hid) 13 1 ∧ DelAt (pdHist hid) 19 1 1 ∧
+    (∃ s, StateAt (pdHist hid) (pdFinal hid) 14 s ∧ s.g.store.get? 1 = some ⟨100, 1, none, true⟩) ∧
+    Returned (pdHist hid) (pdFinal hid) 1 16 (.value none) ∧
+    (pdFinal hid).g.acks = [.accepted, .accepted] ∧ (pdFinal hid).g.store.get? 1 = none := by
+  refine ⟨pdRun (by decide), pdReach, pdIdle, rfl, alive_check (by decide), noShutdown_check (by decide),
+    others_check (by decide), ⟨_, rfl⟩, ⟨_, _, rfl, Or.inr ⟨_, rfl⟩, rfl, rfl⟩, noIssue_check (by decide),
+    ⟨_, rfl⟩, noIssue_check (by decide), ⟨_, _, rfl, Or.inr ⟨_, rfl⟩, rfl, rfl⟩, noIssue_check (by decide),
+    after_check (by decide), ?_, ⟨_, rfl, 0, _, rfl, rfl, rfl⟩, ⟨_, rfl, rfl⟩, ⟨_, Or.inr ⟨_, rfl⟩, by decide⟩,
+    ⟨_, _, rfl, Or.inr ⟨_, rfl⟩, rfl, rfl⟩, by decide, by decide⟩
+  exact ⟨_, 100, rfl, rfl, _, none, rfl, rfl, rfl, rfl, rfl⟩
+
+/-- … and the conclusion for `p = 10`, `m₂ = 13`: from the mark on every entry of key 1 is hidden -/
+example : ∀ m s, 13 < m → StateAt (PD.pdHist PD.hid) (PD.pdFinal PD.hid) m s →
+    ∀ e, s.g.store.get? 1 = some e → e.soft = true := by
+  obtain ⟨a1, a2, a3, a4, a5, a6, a7, a8, a9, a10, a11, a12, a13, a14, a15, a16, _⟩ :=
+    C11_layerB_delete_mark_after_put_witness
+  obtain ⟨c₁, hc₁, _, hp⟩ := C11_layerB_delete_mark_hits_nothing_or_the_put a2 a3 a4 a1 a5 a6 a7 a8 a9 (by decide) a10
+    a11 (by decide) a12 a13 (by decide) a14 a15 (m₂ := 13) (sm := _)
+    (show At (PD.pdHist PD.hid) 13 (_, .client 0) from rfl) rfl ⟨by decide, by decide⟩
+  -- the put's command carries the key id 1
+  have hid1 : c₁.id = 1 := by
+    obtain ⟨_, _, _, _, _, s, hx, hpc⟩ := hc₁
+    have hx' : At (PD.pdHist PD.hid) 4 (_, .client 0) := rfl
+    have := hx.inj hx'
+    cases this
+    have hpc' : (PD.pdHist PD.hid).reverse[4]?.map (fun x => x.1.cl[0]?) = some (some (.send (.put 1 1 3 1 100))) := rfl
+    obtain ⟨id, hash, w, k, v, ttl, hh⟩ := c₁
+    cases ttl <;> simp_all [cmdOfPut, At]
+  exact (hp 10 (by decide) (hid1 ▸ a16)).2.2 (by decide)
+
+/-- `C11_layerB_queue_order_is_issue_order_per_client` on the run `nv`: client 0's `put(1)` (0..4, handle 0) and
+    `delete(1)` (13..21, handle 3) -/
+example : 4 < 13 ∧ 0 < 3 ∧ ∃ cA cB, Sent (PD.pdHist PD.nv) (PD.pdFinal PD.nv) 0 4 cA 0 ∧
+    Sent (PD.pdHist PD.nv) (PD.pdFinal PD.nv) 0 21 cB 3 ∧
+    ∀ m s, StateAt (PD.pdHist PD.nv) (PD.pdFinal PD.nv) m s →
+      (qHandles s.g.queue).Pairwise (· < ·) ∧ (21 < m → (s.w.held = some 3 ∨ Answered s 3) → Answered s 0) := by
+  obtain ⟨a1, a2, _, _, _, _, _, a8, a9, a10, a11, _, a13, _⟩ := C11_layerB_put_then_delete_witness
+  exact C11_layerB_queue_order_is_issue_order_per_client a2 a1 a8 a9 (by decide) a10 a11 a13 (by decide) (by decide)
+
+/-! ### the two refusals of the put -/
+
+namespace PD
+
+/-- client 0: `put(1, 100)`, `put(1, 111)`, `delete(1)` — none awaited.  The second put passes the caller's presence
+    check (the first is not applied yet); the worker accepts the first, refuses the second as `KeyAlreadyExists`, and
+    the `Delete(1)` removes the FIRST put's entry: `Accepted`. -/
+def putPutDel : List (Act × Oracle) :=
+  call 0 (.putW 1 100 3 none) 4 ++ call 0 (.putW 1 111 3 none) 4 ++ call 0 (.delete 1) 3 ++ workerN 6 ++ workerN 2 ++
+  workerN 4
+
+/-- client 0: a put heavier than the cache (weight 11 > 10), then `delete(1)`: `tooHeavy`, then `KeyDoesNotExist` -/
+def heavy : List (Act × Oracle) :=
+  call 0 (.putW 1 100 11 none) 4 ++ call 0 (.delete 1) 3 ++ workerN 2 ++ workerN 2
+
+end PD
+
+open PD in
+/-- **Non-vacuity of the `KeyAlreadyExists` branch** ("a put queued BEFORE by the same client is in flight"): the scenario
+    is the SECOND put (issued at 5, handle 1) and the delete (issued at 10, handle 2); every hypothesis holds; the put is
+    refused as existing, the delete is `Accepted`. -/
+theorem C11_layerB_put_then_delete_exists_witness :
+    RunH pdInit (pdHist putPutDel) (pdFinal putPutDel) ∧ (pdFinal putPutDel).w ≠ .dead ∧
+    (∀ j n, ¬ Issued (pdHist putPutDel) j .shutdown n) ∧
+    (∀ j q r, j ≠ 0 → Issued (pdHist putPutDel) j r q → reqOnK 1 r = false) ∧
+    Issued (pdHist putPutDel) 0 (.putW 1 111 3 none) 5 ∧ Returned (pdHist putPutDel) (pdFinal putPutDel) 0 9 (.ack 1 .pending) ∧
+    (∀ q r, 5 < q → q < 9 → ¬ Issued (pdHist putPutDel) 0 r q) ∧
+    Issued (pdHist putPutDel) 0 (.delete 1) 10 ∧ (∀ q r, 9 < q → q < 10 → ¬ Issued (pdHist putPutDel) 0 r q) ∧
+    Returned (pdHist putPutDel) (pdFinal putPutDel) 0 13 (.ack 2 .pending) ∧
+    (∀ q r, 10 < q → q < 13 → ¬ Issued (pdHist putPutDel) 0 r q) ∧
+    (∀ q r, 13 < q → Issued (pdHist putPutDel) 0 r q → reqOnK 1 r = false) ∧
+    (pdFinal putPutDel).g.acks = [.accepted, .rejected .keyAlreadyExists, .accepted] ∧
+    (pdFinal putPutDel).g.store.get? 1 = none := by
+  refine ⟨pdRun (by decide), alive_check (by decide), noShutdown_check (by decide), others_check (by decide),
+    ⟨_, rfl⟩, ⟨_, _, rfl, Or.inr ⟨_, rfl⟩, rfl, rfl⟩, noIssue_check (by decide), ⟨_, rfl⟩, noIssue_check (by decide),
+    ⟨_, _, rfl, Or.inr ⟨_, rfl⟩, rfl, rfl⟩, noIssue_check (by decide), after_check (by decide), by decide, by decide⟩
+
+/-- … `C11_layerB_put_then_delete_partial` applies to it -/
+example : ∃ c₁ : PutCmd, IsCmd (PD.pdHist PD.putPutDel) 0 1 111 3 none 9 1 c₁ ∧
+    ∀ m s, 13 < m → StateAt (PD.pdHist PD.putPutDel) (PD.pdFinal PD.putPutDel) m s → Answered s 2 →
+      s.g.store.get? 1 = none ∧ s.g.adm.kw.get? c₁.id = none ∧ Answered s 1 := by
+  obtain ⟨a1, a2, a3, a4, a5, a6, a7, a8, a9, a10, a11, a12, _⟩ := C11_layerB_put_then_delete_exists_witness
+  obtain ⟨c₁, hc₁, hall⟩ := C11_layerB_put_then_delete_partial PD.pdReach PD.pdIdle rfl a1 a2 a3 a4 a5 a6 (by decide) a7
+    a8 (by decide) a9 a10 (by decide) a11 a12
+  refine ⟨c₁, hc₁, fun m s hm hst hans => ?_⟩
+  obtain ⟨h1, h2, st₁, _, _, _, hs₁, _, hne, _⟩ := hall m s hm hst hans
+  exact ⟨h1, h2, st₁, hs₁, hne⟩
+
+open PD in
+/-- **Non-vacuity of the admission-refusal branch**: the put is refused as too heavy, the delete is answered
+    `KeyDoesNotExist` — every hypothesis of `C11_layerB_put_then_delete_partial` holds. -/
+theorem C11_layerB_put_then_delete_tooHeavy_witness :
+    RunH pdInit (pdHist heavy) (pdFinal heavy) ∧ (pdFinal heavy).w ≠ .dead ∧
+    (∀ j n, ¬ Issued (pdHist heavy) j .shutdown n) ∧
+    (∀ j q r, j ≠ 0 → Issued (pdHist heavy) j r q → reqOnK 1 r = false) ∧
+    Issued (pdHist heavy) 0 (.putW 1 100 11 none) 0 ∧ Returned (pdHist heavy) (pdFinal heavy) 0 4 (.ack 0 .pending) ∧
+    (∀ q r, 0 < q → q < 4 → ¬ Issued (pdHist heavy) 0 r q) ∧
+    Issued (pdHist heavy) 0 (.delete 1) 5 ∧ (∀ q r, 4 < q → q < 5 → ¬ Issued (pdHist heavy) 0 r q) ∧
+    Returned (pdHist heavy) (pdFinal heavy) 0 8 (.ack 1 .pending) ∧
+    (∀ q r, 5 < q → q < 8 → ¬ Issued (pdHist heavy) 0 r q) ∧
+    (∀ q r, 8 < q → Issued (pdHist heavy) 0 r q → reqOnK 1 r = false) ∧
+    (pdFinal heavy).g.acks = [.rejected .tooHeavy, .rejected .keyDoesNotExist] := by
+  refine ⟨pdRun (by decide), alive_check (by decide), noShutdown_check (by decide), others_check (by decide),
+    ⟨_, rfl⟩, ⟨_, _, rfl, Or.inr ⟨_, rfl⟩, rfl, rfl⟩, noIssue_check (by decide), ⟨_, rfl⟩, noIssue_check (by decide),
+    ⟨_, _, rfl, Or.inr ⟨_, rfl⟩, rfl, rfl⟩, noIssue_check (by decide), after_check (by decide), by decide⟩
 
 end B
 end Cached
